@@ -15,4 +15,5 @@ CONSTANTS
   Dev_RemovedForStaged = FALSE
   Dev_EnableErrorIgnored = FALSE
 INVARIANTS VisibleReachable
+VIEW MCView
 CHECK_DEADLOCK FALSE
